@@ -17,6 +17,7 @@ import GbVerif.Proofs.X86SimCb
 import GbVerif.Proofs.X86SimBit
 import GbVerif.Proofs.X86SimAdc
 import GbVerif.Proofs.X86SimFlagOps
+import GbVerif.Proofs.X86SimMem
 /-!
 C01 — translated blocks have the same architectural effect as the interpreter.
 (Structural facts first; the x86 model and per-template simulation lemmas are added by `Proofs/X86*.lean`.)
@@ -367,7 +368,7 @@ encoding `b0` with operand bytes `b1 b2` ends in a host state related to the reg
 `g` (cycles included), with the bus, the host stack and the status byte untouched.  The statement for ALL register-only
 encodings is `RegisterSimulation`; it is PROVED for the register-transfer family (70 encodings) and for the 8-bit
 arithmetic and logic on A with a register or immediate operand, flags included (48 encodings; ADC / SBC: 16 more, `SimulatesF`; INC / DEC r, SCF, CCF: 16 more), and RES / SET b,r of the
-CB page (112 encodings: `SimulatesCb`) and BIT b,r (56 encodings: `SimulatesCbF`), and otherwise carried by the
+CB page (112 encodings: `SimulatesCb`), LD r,(HL) / LD (HL),r through the bus helpers (14 encodings: `SimulatesMem`) and BIT b,r (56 encodings: `SimulatesCbF`), and otherwise carried by the
 native differential and the exhaustive `c01.grid`. -/
 
 /-- the full statement for an encoding that touches no memory (not proved in general) -/
@@ -437,6 +438,18 @@ theorem simulation_inc_partial :
   ⟨fun r b1 b2 => ⟨sim_inc8 r b1 b2, sim_dec8 r b1 b2⟩, fun b1 b2 => ⟨sim_scf b1 b2, sim_ccf b1 b2⟩⟩
 
 example : opcodeInc8 .A = 0x3c ∧ opcodeDec8 .B = 0x05 := by decide
+
+
+/-- **simulation_mem_partial** (the bus side): LD r,(HL) and LD (HL),r for the seven registers (14 encodings), for all states
+and any bus (reads returning bytes): the template saves the caller-saved guest registers on the host stack, calls
+`memory_read_byte` / `memory_write_byte` with the address in rsi and the memory base in rdi, (for a load) pokes the result
+into the stack slot of the saved register, and pops them back; the interpreter, run on the bus the host state carries,
+performs the SAME access — same address, same byte — and both end with the same bus, related register files, the host
+stack and the status byte as they were -/
+theorem simulation_mem_partial : ∀ (r : Reg8) (b1 b2 : Nat), SimulatesMem (opcodeLdHl r) b1 b2 ∧ SimulatesMem (opcodeStHl r) b1 b2 :=
+  fun r b1 b2 => ⟨sim_ldhl r b1 b2, sim_sthl r b1 b2⟩
+
+example : opcodeLdHl .A = 0x7e ∧ opcodeStHl .B = 0x70 := by decide
 
 /-- the opcodes covered are the SM83's: LD B,C = 0x41, LD A,n = 0x3E, LD SP,nn = 0x31, DEC HL = 0x2B -/
 example : opcodeLd8 .B .C = 0x41 ∧ opcodeLdI .A = 0x3e ∧ opcodeLd16 .SP = 0x31 ∧ opcodeDec16 .HL = 0x2b := by decide
